@@ -272,7 +272,7 @@ def run_case(case):
 
 def gen_cases(tier, seed):
     rng = random.Random(seed * 4099 + 3)
-    n = 400 if tier == "quick" else 8000
+    n = 400 if tier == "quick" else 40000
     plans = []
     for i in range(n):
         bs = rng.choice([1, 2, 7, 512, 8192, 8192, 65536])
